@@ -382,6 +382,10 @@ RECIPES = {
     "hash_code": [("T_COMMENT", b"# if ($a) { b(); }\n"), ("T_WHITESPACE", b" ")],
     "block_code": [("T_COMMENT", b"/* a; /* b */"), ("T_WHITESPACE", b" ")],
     "block_quotes": [("T_WHITESPACE", b" "), ("T_COMMENT", b"/* it's \"q\" ?> <?php { */")],
+    # ... nor how they begin
+    "hash_bracket": [("T_COMMENT", b"#[1] see f(); g();\n"), ("T_WHITESPACE", b" ")],
+    "line_star": [("T_WHITESPACE", b" "), ("T_COMMENT", b"//* x */ $y = 1;\n")],
+    "block_slash": [("T_COMMENT", b"/*/ x */"), ("T_WHITESPACE", b" ")],
     "cr": [("T_WHITESPACE", b"\r")],
     "mix": [("T_WHITESPACE", b"\n"), ("T_COMMENT", b"// x\n"), ("T_DOC_COMMENT", b"/** y */"), ("T_WHITESPACE", b" ")],
 }
